@@ -1,13 +1,14 @@
 (* Evaluation of the C19 model on harness-written histories (correspondence check).
    The model run is [step true] = the code as it stands in /repo (repaired remove). *)
 From Coq Require Import List NArith Bool.
-From V.C19 Require Import Model.
+From V.C19 Require Import Model KeyModel.
 Import ListNotations.
 Local Open Scope N_scope.
 
 Inductive hop := HAdd (i pre parent : N) | HRemoveLast | HRemoveFrom (h : N) | HRestart
   | HFork (h : N) (gs : list (N * N * N))     (* fork groups (id, pre, parent), heights h+1, h+2, ... *)
-  | HDrop (ids : list N).
+  | HDrop (ids : list N)
+  | HSetRow (i h : N).                         (* a wrong or extra sqlite row written behind the chain's back *)
 
 Definition J (i pre parent h : N) : option group := Some (mkG i pre parent h).
 Definition X : option group := None.
@@ -41,6 +42,7 @@ Definition op_of (o : hop) : op :=
   | HRestart => Restart
   | HFork h gs => ForkSwitch h (map (fun g => let '(i, p, q) := g in mkG i p q 0) gs)
   | HDrop ids => DropIndex ids
+  | HSetRow i h => SetIndexRow i h
   end.
 
 Definition genesis : group := mkG 1 0 0 0.
@@ -135,3 +137,28 @@ Definition check_sched (c : N * list hop * (N * N * N) * list hop * bool * obs *
   let xret := match ts' with t :: _ => hd 99 (rets t) | [] => 99 end in
   obs_eqb (observe U xret s') ob && spec_okb U s' &&
   list_eqb N.eqb (map (fun p => thread_ret (fst p) (snd p)) (combine comp (tl ts'))) crets.
+
+(* ---- key-space collisions (harness: AddGroup of a group whose id is a key of another kind, on a
+   freshly initialised store, with a CheckGroup stub that accepts it) ----
+   case = (genesis id bytes, id bytes of the added group, observed: AddGroup result, Count,
+           GetGroupById(id) <> nil, GetGroupByHeight(1) <> nil, LastGroup.Id = id) *)
+Definition is_some {A} (o : option A) : bool := match o with Some _ => true | None => false end.
+
+Definition check_keys (c : bytes * bytes * N * N * bool * bool * bool) : bool :=
+  let '(g0id, xid, ret, cnt, byid, byh, lastis) := c in
+  let gen := mkBG g0id [] [] 0 in
+  let s0 := b_save {| bst := fun _ => None; bcount := 0; blast := gen |} gen in
+  let '(s1, r) := b_add_group s0 (mkBG xid g0id g0id 0) in
+  let jb := fun _ : bgroup => [123] in
+  (r =? ret) && (bcount s1 =? cnt) && Bool.eqb (is_some (b_by_id (bst s1) xid)) byid &&
+  Bool.eqb (is_some (b_by_height jb (bst s1) 1)) byh && Bool.eqb (beqb (bid (blast s1)) xid) lastis.
+
+(* ---- a reader without the lock (harness: save / remove parked at Put("gcount"), i.e. between
+   count++/count-- and the assignment of lastGroup; Count() and LastGroup() read at that moment) ----
+   case = (prefix, true = AddGroup(x) / false = remove(last), x, observed Count(), observed LastGroup()) *)
+Definition check_lf (c : list hop * bool * (N * N * N) * N * option group) : bool :=
+  let '(pre, isadd, x, cnt, lg) := c in
+  let '(xi, xp, xq) := x in
+  let s0 := run_prefix pre in
+  let m := if isadd then save_mid s0 (mkG xi xp xq 0) else remove_mid s0 (last s0) in
+  (fst (lf_read m) =? cnt) && opt_eqb group_eqb (Some (snd (lf_read m))) lg.
